@@ -653,3 +653,103 @@ func tamperCMap(data []byte, rnd *vt.Rand) (out []byte, label string) {
 	}
 	return b.Bytes(), "cmap " + kind + "=" + sh.name
 }
+
+// ---------------------------------------------------------------------------
+// interactive form
+
+var acroFormShapes = []struct{ name, text string }{
+	{"array", "[ %W ]"},
+	{"integer", "42"},
+	{"null", "null"},
+	{"fields-int", "<< /Fields 7 >>"},
+	{"fields-self", "<< /Fields [ %F 0 R %W [ ] null ] >>"},
+	{"dr-broken", "<< /Fields [ %W ] /DR 7 /DA 12 >>"},
+	{"co-string", "<< /Fields [ %W ] /CO (x) /NeedAppearances /Yes /SigFlags (3) >>"},
+	{"valid", "<< /Fields [ %W ] /DA (/F1 10 Tf 0 g) >>"},
+	{"stream", "<< /Fields [ %W ] /Length 1 >>\nstream\nx\nendstream"},
+}
+
+// addAcroForm gives the catalog an (indirect) /AcroForm of one of the hostile
+// shapes and every page -- up to four -- a widget annotation.  The new objects
+// are appended to the file; a fresh cross-reference section has to list them.
+func addAcroForm(data []byte, rnd *vt.Rand) (out []byte, label string) {
+	defer func() {
+		if r := recover(); r != nil {
+			out, label = nil, ""
+		}
+	}()
+	ts := syntax.Tokens(data)
+	objs := locate(ts)
+	m := &mutator{data: data, toks: ts}
+	type ins struct {
+		at   int
+		text string
+	}
+	var edits []ins
+	maxNum := int64(0)
+	catalog := -1
+	var pages []int
+	for _, o := range objs {
+		if o.num > maxNum && o.num < 1<<22 {
+			maxNum = o.num
+		}
+		if o.tok+3 >= len(ts) || ts[o.tok+3].Kind != syntax.TokDictOpen {
+			continue
+		}
+		end := m.valueEnd(o.tok + 3)
+		if end > len(ts) || ts[end-1].Kind != syntax.TokDictClose {
+			continue
+		}
+		for j := o.tok + 4; j+1 < end; j++ {
+			if ts[j].Kind == syntax.TokName && string(ts[j].Bytes) == "Type" && ts[j+1].Kind == syntax.TokName {
+				switch string(ts[j+1].Bytes) {
+				case "Catalog":
+					catalog = ts[end-1].Pos
+				case "Page":
+					if len(pages) < 4 {
+						pages = append(pages, ts[end-1].Pos)
+					}
+				}
+				break
+			}
+		}
+	}
+	if catalog < 0 || len(pages) == 0 {
+		return nil, ""
+	}
+	form := maxNum + 1
+	var widgets []string
+	var app bytes.Buffer
+	sh := acroFormShapes[rnd.Intn(len(acroFormShapes))]
+	parent := ""
+	if rnd.Intn(3) == 0 {
+		parent = fmt.Sprintf("/Parent %d 0 R ", form)
+	}
+	for i, p := range pages {
+		w := form + 1 + int64(i)
+		widgets = append(widgets, fmt.Sprintf("%d 0 R", w))
+		edits = append(edits, ins{p, fmt.Sprintf(" /Annots [ %d 0 R ] ", w)})
+		fmt.Fprintf(&app, "%d 0 obj\n<< /Type /Annot /Subtype /Widget /FT /Tx /T (f%d) /Rect [ 10 10 100 30 ] %s>>\nendobj\n", w, i, parent)
+	}
+	edits = append(edits, ins{catalog, fmt.Sprintf(" /AcroForm %d 0 R ", form)})
+	text := strings.ReplaceAll(sh.text, "%W", strings.Join(widgets, " "))
+	text = strings.ReplaceAll(text, "%F", strconv.FormatInt(form, 10))
+	fmt.Fprintf(&app, "%d 0 obj\n%s\nendobj\n", form, text)
+	// apply the insertions from the back, so that positions stay valid
+	for i := 0; i < len(edits); i++ {
+		for j := i + 1; j < len(edits); j++ {
+			if edits[j].at > edits[i].at {
+				edits[i], edits[j] = edits[j], edits[i]
+			}
+		}
+	}
+	out = append([]byte{}, data...)
+	for _, e := range edits {
+		out = append(out[:e.at], append([]byte(e.text), out[e.at:]...)...)
+	}
+	if len(out) > 0 && out[len(out)-1] != '\n' {
+		out = append(out, '\n')
+	}
+	out = append(out, app.Bytes()...)
+	return out, fmt.Sprintf("acroform %s widgets=%d", sh.name, len(pages))
+}
